@@ -82,6 +82,16 @@ Theorem C01_unit_judgement_transfer : forall a steps o, JudgeDataP.steps_wf01 a 
 Proof. exact JudgeDataP.C01u_judgement_transfer. Qed.
 
 
+(* ---- app stage: the executable judgement of coq/Check is sound for the model on every scenario of the profile, and transfers
+   to every trace that agrees with the model's run ---- *)
+From BEI Require Check.C01c Proofs.JudgeC01P.
+Theorem C01_app_judgement_sound : forall sc, JudgeC01P.profile_C01b sc = true -> C01c.ok (sc, App.trace (App.run sc)) = 0%Z.
+Proof. exact JudgeC01P.C01_app_judgement_sound. Qed.
+
+Theorem C01_app_judgement_transfer : forall sc t, JudgeC01P.profile_C01b sc = true -> App.agree_full (sc, t) = true -> C01c.ok (sc, t) = 0%Z.
+Proof. exact JudgeC01P.C01_app_judgement_transfer. Qed.
+
+
 Print Assumptions C01_table.
 Print Assumptions C01_started_first.
 Print Assumptions C01_payload.
@@ -112,3 +122,5 @@ Proof. exact track_frame. Qed.
 Print Assumptions C01_world_frame.
 Print Assumptions C01_unit_judgement_sound_exact.
 Print Assumptions C01_unit_judgement_transfer.
+Print Assumptions C01_app_judgement_sound.
+Print Assumptions C01_app_judgement_transfer.
